@@ -60,7 +60,7 @@ impl Gen {
     pub fn draw_cfg(rng: &mut Rng, family: &str) -> GenCfg {
         let n_peers = match family {
             "death3" | "three" => 3 + rng.below(2) as usize,
-            "timesync" | "lossack" | "death" | "disc" | "specack" | "specdeath" | "idle" | "glitch" | "forge" => 2,
+            "timesync" | "lossack" | "death" | "disc" | "specack" | "specdeath" | "idle" | "glitch" | "forge" | "evq" => 2,
             _ => *rng.pick(&[2usize, 2, 2, 3, 3, 4]),
         };
         let players_per_peer: Vec<usize> = (0..n_peers).map(|_| if rng.chance(1, 4) { 2 } else { 1 }).collect();
@@ -152,6 +152,21 @@ impl Gen {
                 cfg.sparse = false;
                 if cfg.mp == 0 { cfg.mp = 8; }
                 cfg.duration_ticks = 300 + rng.below(200);
+            }
+            "evq" => {
+                // one peer ticks faster than the other and nobody ever drains events
+                cfg.mp = 8;
+                cfg.delay = 0;
+                cfg.dd = 0;
+                cfg.sparse = false;
+                cfg.fps = 60;
+                cfg.players_per_peer = vec![1, 1];
+                cfg.duration_ticks = 7000;
+                cfg.step_us = 8000;
+                cfg.p_deliver = 100;
+                cfg.p_drop = 0;
+                cfg.p_dup = 0;
+                cfg.p_skip = 0;
             }
             "clean" | "timesync" => {
                 if family == "timesync" {
@@ -257,6 +272,14 @@ impl Gen {
                 drain_events: self.rng.chance(3, 4),
                 ticks: 0,
             });
+        }
+        if cfg.family == "evq" {
+            let base = 1_000_000 / cfg.fps as u64;
+            self.peers[0].period_us = base / 2;
+            self.peers[1].period_us = base;
+            for p in self.peers.iter_mut() {
+                p.drain_events = false;
+            }
         }
         if cfg.family == "timesync" {
             let k = self.rng.below(8);
@@ -507,7 +530,7 @@ impl Gen {
             }
         }
         // epilogue: the network behaves, everybody alive keeps ticking
-        if !matches!(self.cfg.family.as_str(), "idle" | "events" | "timesync") {
+        if !matches!(self.cfg.family.as_str(), "idle" | "events" | "timesync" | "evq") {
             self.emit("mark epilogue".to_owned());
             self.cfg.p_drop = 0;
             self.cfg.p_dup = 0;
